@@ -235,7 +235,7 @@ def run(ctx):
     shards = []
     step = 400
     for s in range(0, len(rows), step):
-        shards.append(HEADER + 'Definition cases := [\n%s\n].\nEval vm_compute in mm 0 cases.\n' % ';\n'.join(x[1] for x in rows[s:s + step]))
+        shards.append(HEADER + 'Definition cases : list (nat * ures qv * ures qv * rr) := [\n%s\n].\nEval vm_compute in mm 0 cases.\n' % ';\n'.join(x[1] for x in rows[s:s + step]))
     nbad = 0
     for k, (ok, out) in enumerate(vlib.run_cases_sharded('c11_' + ctx.tier, shards, timeout=1200)):
         val = vlib.coq_eval_value(out) if ok else None
